@@ -37,7 +37,7 @@ theorem extends_allocSlot (w : World) (self : Name) (sd : List (Name × Ref)) (h
     Extends h (allocSlot w self sd h s).1 := by
   unfold allocSlot
   split
-  · exact extends_alloc _ _
+  · exact ⟨_, rfl⟩
   · exact Extends.refl _
   · exact Extends.refl _
 
@@ -45,7 +45,7 @@ theorem extends_allocAcc (w : World) (self : Name) (sd : List (Name × Ref)) (st
     (ke : Name × EntryV) : Extends st.1 (allocAcc w self sd st ke).1 := by
   unfold allocAcc
   split
-  · exact (extends_allocSlot w self sd st.1 _).trans (extends_alloc _ _)
+  · exact (extends_allocSlot w self sd st.1 _).trans ⟨_, rfl⟩
   · exact Extends.refl _
 
 theorem extends_allocView (st : Heap × List (Name × Ref)) (nv : Name × AccView) :
@@ -232,7 +232,7 @@ theorem frame_step (T : Tables) (w : World) (op : Op) (r : Ref) (hr : r < w.heap
         split
         · split
           · have : r' ≠ r := fun e => hnot (e ▸ root_reach hroot (self_mem_reachAcc _ _))
-            simp only [alloc_heap]
+            simp only [enumHeap]
             rw [getElem?_set_ne' this]
             exact List.getElem?_append_left hr
           · rfl
@@ -480,5 +480,553 @@ theorem describe_instantiate (T : Tables) (w : World) (n c : Name) (cfg : List (
       ((instantiate T w n c cfg).accessiblesOf (.inst n)) = _
   rw [hacc]
   exact h1
+
+
+/-! ### the two mutations keep the invariants -/
+
+/-- an operation that writes only inside its target instance (and may give it new objects) keeps the invariants -/
+theorem preserve_of_target_write (w w' : World) (i : Name)
+    (hroots : ∀ o, w'.roots o = w.roots o) (hlen : w.heap.length ≤ w'.heap.length)
+    (hframe : ∀ x, x < w.heap.length → x ∉ reach w (.inst i) → w'.heap[x]? = w.heap[x]?)
+    (hb : Bounded w) (hs : Separated w)
+    (hnew : ∀ r ∈ reach w' (.inst i), r ∈ reach w (.inst i) ∨ (w.heap.length ≤ r ∧ r < w'.heap.length)) :
+    Bounded w' ∧ Separated w' := by
+  have hsame : ∀ o, o ≠ Owner.inst i → reach w' o = reach w o := fun o ho =>
+    reach_congr (hroots o) (fun r hr => hframe r (root_lt hb hr)
+      (fun hc => hs i o ho r hc (root_reach hr (self_mem_reachAcc _ _))))
+  constructor
+  · intro o r hr
+    by_cases ho : o = .inst i
+    · subst ho
+      rcases hnew r hr with h | h
+      · exact Nat.lt_of_lt_of_le (hb _ r h) hlen
+      · exact h.2
+    · rw [hsame o ho] at hr
+      exact Nat.lt_of_lt_of_le (hb o r hr) hlen
+  · intro j o hoj r hr
+    by_cases hj : Owner.inst j = .inst i
+    · have hji : j = i := by cases hj; rfl
+      subst hji
+      rw [hsame o hoj]
+      rcases hnew r hr with h | h
+      · exact hs j o hoj r h
+      · exact fun hro => absurd (hb o r hro) (Nat.not_lt.2 h.1)
+    · rw [hsame _ hj] at hr
+      by_cases ho : o = .inst i
+      · subst ho
+        intro hro
+        rcases hnew r hro with h | h
+        · exact hs j (.inst i) hoj r hr h
+        · exact absurd (hb _ r hr) (Nat.not_lt.2 h.1)
+      · rw [hsame o ho]
+        exact hs j o hoj r hr
+
+theorem accAt_lt {h : Heap} {r : Ref} {a : AccH} (ha : h.accAt r = some a) : r < h.length := by
+  unfold Heap.accAt at ha
+  cases hr : h[r]? with
+  | none => simp [hr] at ha
+  | some o => exact (List.getElem?_eq_some_iff.1 hr).1
+
+theorem dtAt_lt {h : Heap} {r : Ref} {t : DTree} (ha : h.dtAt r = some t) : r < h.length := by
+  unfold Heap.dtAt at ha
+  cases hr : h[r]? with
+  | none => simp [hr] at ha
+  | some o => exact (List.getElem?_eq_some_iff.1 hr).1
+
+theorem accAt_set_self {h : Heap} {r : Ref} (hr : r < h.length) (a : AccH) :
+    Heap.accAt (h.set r (.acc a)) r = some a := by
+  unfold Heap.accAt; simp [hr]
+
+theorem accAt_set_dt {h : Heap} {rd : Ref} {t : DTree} (hd : h.dtAt rd = some t) (t' : DTree) (x : Ref) :
+    Heap.accAt (h.set rd (.dt t')) x = h.accAt x := by
+  by_cases hx : rd = x
+  · subst hx
+    have hlt := dtAt_lt hd
+    have h1 : (h.set rd (Obj.dt t'))[rd]? = some (Obj.dt t') := by simp [hlt]
+    unfold Heap.dtAt at hd
+    unfold Heap.accAt
+    rw [h1]
+    cases hr : h[rd]? with
+    | none => simp [hr] at hd
+    | some o => cases o with
+      | acc a => simp [hr] at hd
+      | dt t0 => rfl
+  · exact accAt_congr (getElem?_set_ne' hx)
+
+theorem records_mutation (T : Tables) (w : World) (op : Op) (hop : (∃ i p k v, op = .setprop i p k v) ∨ ∃ i p m, op = .addEnum i p m) :
+    (step T w op).classes = w.classes ∧ (step T w op).insts = w.insts := by
+  rcases hop with ⟨i, p, k, v, rfl⟩ | ⟨i, p, m, rfl⟩
+  · simp only [step, setprop]
+    repeat' split
+    all_goals exact ⟨rfl, rfl⟩
+  · simp only [step, addEnum]
+    repeat' split
+    all_goals exact ⟨rfl, rfl⟩
+
+theorem roots_of_records {w w' : World} (hc : w'.classes = w.classes) (hi : w'.insts = w.insts) (o : Owner) :
+    w'.roots o = w.roots o := by
+  cases o <;> simp only [World.roots, World.findClass, World.findInst, hc, hi]
+
+theorem mem_reach_inst {w : World} {i par : Name} {r : Ref} (h : aget? (w.accessiblesOf (.inst i)) par = some r) :
+    r ∈ w.roots (.inst i) := accessible_mem_roots (aget?_mem h)
+
+/-- what is reachable from `x` after the cell `r` was overwritten by an accessible with the given fields -/
+theorem reachAcc_after_set {h h' : Heap} {r : Ref} {a' : AccH} (hr' : h'.accAt r = some a')
+    (hother : ∀ x, x ≠ r → h'.accAt x = h.accAt x) (x : Ref) :
+    reachAcc h' x = if x = r then r :: (a'.dtype.toList ++ a'.ownDt.toList ++ a'.mergedDt.toList) else reachAcc h x := by
+  by_cases hx : x = r
+  · subst hx; simp only [if_true]; unfold reachAcc; rw [hr']
+  · simp only [hx, if_false]; unfold reachAcc; rw [hother x hx]
+
+theorem preserve_setprop (T : Tables) (w : World) (i p k : Name) (v : PVal) (hb : Bounded w) (hs : Separated w) :
+    Bounded (setprop T w i p k v) ∧ Separated (setprop T w i p k v) := by
+  have hrec := records_mutation T w (.setprop i p k v) (Or.inl ⟨i, p, k, v, rfl⟩)
+  have hframe := fun x hx hn => frame_step T w (.setprop i p k v) x hx hn
+  simp only [step] at hrec hframe
+  apply preserve_of_target_write w _ i (roots_of_records hrec.1 hrec.2) ?_ hframe hb hs
+  · -- what the instance reaches afterwards
+    intro x hx
+    left
+    unfold reach at hx ⊢
+    rw [roots_of_records hrec.1 hrec.2] at hx
+    obtain ⟨root, hroot, hxr⟩ := List.mem_flatMap.1 hx
+    revert hx hxr
+    unfold setprop
+    split
+    · rename_i r' hacc
+      have hr'root := mem_reach_inst hacc
+      split
+      · rename_i a ha
+        have hlt := accAt_lt ha
+        split
+        · intro _ hxr
+          simp only at hxr
+          rw [reachAcc_after_set (accAt_set_self hlt _) (fun y hy => accAt_congr (getElem?_set_ne' (Ne.symm hy))) root] at hxr
+          split at hxr
+          · rename_i hroot'
+            refine List.mem_flatMap.2 ⟨r', hr'root, ?_⟩
+            unfold reachAcc; rw [ha]; exact hxr
+          · exact List.mem_flatMap.2 ⟨root, hroot, hxr⟩
+        · split
+          · rename_i rd hd
+            split
+            · rename_i t ht
+              intro _ hxr
+              simp only at hxr
+              unfold reachAcc at hxr
+              rw [accAt_set_dt ht] at hxr
+              exact List.mem_flatMap.2 ⟨root, hroot, hxr⟩
+            · intro _ hxr; exact List.mem_flatMap.2 ⟨root, hroot, hxr⟩
+          · intro _ hxr; exact List.mem_flatMap.2 ⟨root, hroot, hxr⟩
+      · intro _ hxr; exact List.mem_flatMap.2 ⟨root, hroot, hxr⟩
+    · intro _ hxr; exact List.mem_flatMap.2 ⟨root, hroot, hxr⟩
+  · -- the heap does not shrink
+    unfold setprop
+    repeat' split
+    all_goals simp
+
+
+theorem accAt_append_dt (h : Heap) (t : DTree) (y : Ref) : Heap.accAt (h ++ [Obj.dt t]) y = h.accAt y := by
+  unfold Heap.accAt
+  by_cases hy : y < h.length
+  · rw [List.getElem?_append_left hy]
+  · have hge : h.length ≤ y := Nat.le_of_not_lt hy
+    have h2 : h[y]? = none := List.getElem?_eq_none hge
+    rw [h2]
+    by_cases hy2 : y = h.length
+    · subst hy2; simp
+    · have hlen : (h ++ [Obj.dt t]).length ≤ y := by
+        rw [List.length_append, List.length_singleton]
+        exact Nat.succ_le_of_lt (Nat.lt_of_le_of_ne hge (fun e => hy2 e.symm))
+      have : (h ++ [Obj.dt t])[y]? = none := List.getElem?_eq_none hlen
+      rw [this]
+
+theorem preserve_addEnum (T : Tables) (w : World) (i p m : Name) (hb : Bounded w) (hs : Separated w) :
+    Bounded (addEnum w i p m) ∧ Separated (addEnum w i p m) := by
+  have hrec := records_mutation T w (.addEnum i p m) (Or.inr ⟨i, p, m, rfl⟩)
+  have hframe := fun x hx hn => frame_step T w (.addEnum i p m) x hx hn
+  simp only [step] at hrec hframe
+  apply preserve_of_target_write w _ i (roots_of_records hrec.1 hrec.2) ?_ hframe hb hs
+  · intro x hx
+    unfold reach at hx ⊢
+    rw [roots_of_records hrec.1 hrec.2] at hx
+    obtain ⟨root, hroot, hxr⟩ := List.mem_flatMap.1 hx
+    revert hx hxr
+    unfold addEnum
+    split
+    · rename_i r' hacc
+      have hr'root := mem_reach_inst hacc
+      split
+      · rename_i a ha
+        have hlt := accAt_lt ha
+        split
+        · rename_i rd hd
+          split
+          · rename_i t ht
+            intro _ hxr
+            simp only [enumHeap] at hxr ⊢
+            have hlt1 : r' < (w.heap ++ [Obj.dt (.node "enum" [] [] (t.members ++ [(m, nextEnum t.members)]))]).length :=
+              Nat.lt_of_lt_of_le hlt (by simp)
+            rw [reachAcc_after_set (h := w.heap) (accAt_set_self hlt1 _)
+              (fun y hy => by rw [accAt_congr (getElem?_set_ne' (Ne.symm hy)), accAt_append_dt]) root] at hxr
+            split at hxr
+            · simp only [Option.toList, List.mem_cons, List.mem_append, List.not_mem_nil, or_false] at hxr
+              rcases hxr with rfl | (rfl | hx2) | hx2
+              · exact Or.inl (List.mem_flatMap.2 ⟨x, hr'root, self_mem_reachAcc _ _⟩)
+              · right; simp
+              · left
+                refine List.mem_flatMap.2 ⟨r', hr'root, ?_⟩
+                unfold reachAcc; rw [ha]
+                simp only [List.mem_cons, List.mem_append]
+                exact Or.inr (Or.inl (Or.inr hx2))
+              · left
+                refine List.mem_flatMap.2 ⟨r', hr'root, ?_⟩
+                unfold reachAcc; rw [ha]
+                simp only [List.mem_cons, List.mem_append]
+                exact Or.inr (Or.inr hx2)
+            · exact Or.inl (List.mem_flatMap.2 ⟨root, hroot, hxr⟩)
+          · intro _ hxr; exact Or.inl (List.mem_flatMap.2 ⟨root, hroot, hxr⟩)
+        · intro _ hxr; exact Or.inl (List.mem_flatMap.2 ⟨root, hroot, hxr⟩)
+      · intro _ hxr; exact Or.inl (List.mem_flatMap.2 ⟨root, hroot, hxr⟩)
+    · intro _ hxr; exact Or.inl (List.mem_flatMap.2 ⟨root, hroot, hxr⟩)
+  · unfold addEnum
+    repeat' split
+    all_goals simp [enumHeap]
+
+
+/-! ### class definition keeps the invariants -/
+
+/-- reachable from an existing class -/
+def ClassReach (w : World) (x : Ref) : Prop := ∃ c, x ∈ reach w (.cls c)
+
+/-- the listed objects are new; everything reachable from them is new or belongs to an existing class -/
+def FreshOrInv (base : Nat) (P : Ref → Prop) (st : Heap × List (Name × Ref)) : Prop :=
+  base ≤ st.1.length ∧ ∀ nr ∈ st.2, (base ≤ nr.2 ∧ nr.2 < st.1.length) ∧
+    ∀ x ∈ reachAcc st.1 nr.2, (base ≤ x ∧ x < st.1.length) ∨ P x
+
+theorem FreshOrInv.extend {base : Nat} {P : Ref → Prop} {st : Heap × List (Name × Ref)} (hi : FreshOrInv base P st)
+    {h' : Heap} (he : Extends st.1 h') (n : Name) (r : Ref) (hr0 : base ≤ r ∧ r < h'.length)
+    (hr : ∀ x ∈ reachAcc h' r, (base ≤ x ∧ x < h'.length) ∨ P x) :
+    FreshOrInv base P (h', st.2 ++ [(n, r)]) := by
+  refine ⟨Nat.le_trans hi.1 he.len, ?_⟩
+  intro nr hnr
+  simp only [List.mem_append, List.mem_singleton] at hnr
+  rcases hnr with hold | rfl
+  · obtain ⟨h0, h1⟩ := hi.2 nr hold
+    refine ⟨⟨h0.1, Nat.lt_of_lt_of_le h0.2 he.len⟩, ?_⟩
+    intro x hx
+    rw [reachAcc_congr (he.get h0.2)] at hx
+    rcases h1 x hx with h | h
+    · exact Or.inl ⟨h.1, Nat.lt_of_lt_of_le h.2 he.len⟩
+    · exact Or.inr h
+  · exact ⟨hr0, hr⟩
+
+theorem reachAcc_new_dt (h : Heap) (t : DTree) : reachAcc (h ++ [Obj.dt t]) h.length = [h.length] := by
+  unfold reachAcc Heap.accAt; simp
+
+theorem freshOrInv_allocDecl (base : Nat) (P : Ref → Prop) (self : Name) (st : Heap × List (Name × Ref))
+    (ke : Name × EntryV) (hi : FreshOrInv base P st) : FreshOrInv base P (allocDecl self st ke) := by
+  unfold allocDecl
+  split
+  · split
+    · rename_i t _
+      simp only [alloc_heap, alloc_ref]
+      have hb := hi.1
+      apply hi.extend ⟨_, rfl⟩
+      · simp; omega
+      · intro x hx
+        rw [reachAcc_new_dt] at hx
+        simp only [List.mem_singleton] at hx
+        subst hx; left; simp; omega
+    · exact hi
+  · exact hi
+
+theorem freshOrInv_foldl {α : Type} (base : Nat) (P : Ref → Prop)
+    (f : Heap × List (Name × Ref) → α → Heap × List (Name × Ref))
+    (hf : ∀ st a, FreshOrInv base P st → FreshOrInv base P (f st a)) (l : List α) (st : Heap × List (Name × Ref))
+    (hi : FreshOrInv base P st) : FreshOrInv base P (l.foldl f st) := by
+  induction l generalizing st with
+  | nil => exact hi
+  | cons a l ih => exact ih _ (hf st a hi)
+
+theorem declDt_classReach {w : World} {c n : Name} {cr : ClassRec} {x : Ref} (hc : w.findClass c = some cr)
+    (hx : aget? cr.declDt n = some x) : ClassReach w x := by
+  refine ⟨c, root_reach (r := x) ?_ (self_mem_reachAcc _ _)⟩
+  simp only [World.roots, hc, List.mem_append, List.mem_map]
+  exact Or.inr ⟨(n, x), aget?_mem hx, rfl⟩
+
+theorem accRef_root {w : World} {c n : Name} {cr : ClassRec} {x : Ref} (hc : w.findClass c = some cr)
+    (hx : aget? cr.accRef n = some x) : x ∈ w.roots (.cls c) := by
+  simp only [World.roots, hc, List.mem_append, List.mem_map]
+  exact Or.inl (Or.inr ⟨(n, x), aget?_mem hx, rfl⟩)
+
+theorem resolve_ok {w : World} {self : Name} {sd : List (Name × Ref)} {base L : Nat}
+    (hsd : ∀ nr ∈ sd, base ≤ nr.2 ∧ nr.2 < L) {id : DtId} {x : Ref} (h : resolveDt w self sd id = some x) :
+    (base ≤ x ∧ x < L) ∨ ClassReach w x := by
+  cases id with
+  | copy c n => simp [resolveDt] at h
+  | decl c n =>
+    simp only [resolveDt] at h
+    split at h
+    · exact Or.inl (hsd _ (aget?_mem h))
+    · cases hc : w.findClass c with
+      | none => simp [hc] at h
+      | some cr =>
+        simp only [hc, Option.bind_some] at h
+        exact Or.inr (declDt_classReach hc h)
+
+theorem slotRef_ok {w : World} {self : Name} {sd : List (Name × Ref)} {base L : Nat}
+    (hsd : ∀ nr ∈ sd, base ≤ nr.2 ∧ nr.2 < L) {s : DtSlot} {x : Ref} (h : slotRef w self sd s = some x) :
+    (base ≤ x ∧ x < L) ∨ ClassReach w x := by
+  cases s with
+  | unset => simp [slotRef] at h
+  | cleared => simp [slotRef] at h
+  | set id t => exact resolve_ok hsd (by simpa [slotRef] using h)
+
+
+theorem allocSlot_ref_ok {w : World} {self : Name} {sd : List (Name × Ref)} {base : Nat} {h : Heap}
+    (hb : base ≤ h.length) (hsd : ∀ nr ∈ sd, base ≤ nr.2 ∧ nr.2 < h.length) (s : DtSlot) {x : Ref}
+    (hx : (allocSlot w self sd h s).2 = some x) :
+    (base ≤ x ∧ x < (allocSlot w self sd h s).1.length + 1) ∨ ClassReach w x := by
+  cases s with
+  | unset => simp [allocSlot] at hx
+  | cleared => simp [allocSlot] at hx
+  | set id t =>
+    cases id with
+    | copy c n =>
+      simp only [allocSlot, Option.some.injEq] at hx ⊢
+      subst hx
+      left
+      refine ⟨hb, ?_⟩
+      simp only [List.length_append, List.length_singleton]
+      exact Nat.lt_succ_of_lt (Nat.lt_succ_self _)
+    | decl c n =>
+      simp only [allocSlot] at hx ⊢
+      rcases resolve_ok hsd hx with h1 | h1
+      · left; exact ⟨h1.1, Nat.lt_succ_of_lt h1.2⟩
+      · exact Or.inr h1
+
+theorem freshOrInv_allocAcc (w : World) (self : Name) (sd : List (Name × Ref)) (base L0 : Nat)
+    (hsd : ∀ nr ∈ sd, base ≤ nr.2 ∧ nr.2 < L0) (st : Heap × List (Name × Ref)) (ke : Name × EntryV)
+    (hi : FreshOrInv base (ClassReach w) st ∧ L0 ≤ st.1.length) :
+    FreshOrInv base (ClassReach w) (allocAcc w self sd st ke) ∧ L0 ≤ (allocAcc w self sd st ke).1.length := by
+  have hext := extends_allocAcc w self sd st ke
+  refine ⟨?_, Nat.le_trans hi.2 hext.len⟩
+  unfold allocAcc
+  split
+  · rename_i a _
+    have hb := hi.1.1
+    have hsd' : ∀ nr ∈ sd, base ≤ nr.2 ∧ nr.2 < st.1.length := fun nr h =>
+      ⟨(hsd nr h).1, Nat.lt_of_lt_of_le (hsd nr h).2 hi.2⟩
+    have he1 := extends_allocSlot w self sd st.1 a.dt
+    have hl1 := he1.len
+    have hdref := fun x => allocSlot_ref_ok (w := w) (self := self) hb hsd' a.dt (x := x)
+    have hlen2 : ((allocSlot w self sd st.1 a.dt).1 ++
+        [Obj.acc (accObj w self sd a (allocSlot w self sd st.1 a.dt).2)]).length =
+        (allocSlot w self sd st.1 a.dt).1.length + 1 := by simp
+    generalize hLh : (allocSlot w self sd st.1 a.dt).1.length = Lh at hl1 hdref hlen2
+    have hbig : ∀ y, base ≤ y → y < Lh + 1 → (base ≤ y ∧ y < ((allocSlot w self sd st.1 a.dt).1 ++
+        [Obj.acc (accObj w self sd a (allocSlot w self sd st.1 a.dt).2)]).length) ∨ ClassReach w y :=
+      fun y h1 h2 => Or.inl ⟨h1, by rw [hlen2]; exact h2⟩
+    apply hi.1.extend (he1.trans ⟨_, rfl⟩)
+    · exact ⟨Nat.le_trans hb hl1, by rw [hlen2]; exact Nat.lt_succ_self _⟩
+    · intro x hx
+      rw [← hLh, reachAcc_new] at hx
+      simp only [List.mem_cons, List.mem_append, Option.mem_toList] at hx
+      rcases hx with hx | (hx | hx) | hx
+      · rw [hLh] at hx; subst hx; exact hbig _ (Nat.le_trans hb hl1) (Nat.lt_succ_self _)
+      · rcases hdref x hx with h1 | h1
+        · exact hbig x h1.1 h1.2
+        · exact Or.inr h1
+      · rcases slotRef_ok hsd' (s := a.ownDt) hx with h1 | h1
+        · exact hbig x h1.1 (Nat.lt_succ_of_lt (Nat.lt_of_lt_of_le h1.2 hl1))
+        · exact Or.inr h1
+      · simp only [accObj, mergedRef] at hx
+        split at hx
+        · rcases slotRef_ok hsd' hx with h1 | h1
+          · exact hbig x h1.1 (Nat.lt_succ_of_lt (Nat.lt_of_lt_of_le h1.2 hl1))
+          · exact Or.inr h1
+        · simp at hx
+  · exact hi.1
+
+theorem freshOrInv_layoutAcc (w : World) (self : Name) (sd : List (Name × Ref)) (base L0 : Nat)
+    (hsd : ∀ nr ∈ sd, base ≤ nr.2 ∧ nr.2 < L0) (l : List (Name × EntryV)) (st : Heap × List (Name × Ref))
+    (hi : FreshOrInv base (ClassReach w) st ∧ L0 ≤ st.1.length) :
+    FreshOrInv base (ClassReach w) (l.foldl (allocAcc w self sd) st) := by
+  induction l generalizing st with
+  | nil => exact hi.1
+  | cons a l ih => exact ih _ (freshOrInv_allocAcc w self sd base L0 hsd st a hi)
+
+
+theorem accessibleRef_ok {w : World} {self : Name} {own : List (Name × Ref)} {ns : Name × SlotV} {nr : Name × Ref}
+    (h : accessibleRef w self own ns = some nr) :
+    nr ∈ own ∨ ∃ c, nr.2 ∈ w.roots (.cls c) := by
+  unfold accessibleRef at h
+  split at h
+  · cases hg : aget? own ns.1 with
+    | none => simp [hg] at h
+    | some r =>
+      simp only [hg, Option.map_some, Option.some.injEq] at h
+      subst h
+      exact Or.inl (aget?_mem hg)
+  · cases hc : w.findClass ns.2.owner with
+    | none => simp [hc] at h
+    | some cr =>
+      cases hg : aget? cr.accRef ns.1 with
+      | none => simp [hc, hg] at h
+      | some r =>
+        simp only [hc, Option.bind_some, hg, Option.map_some, Option.some.injEq] at h
+        subst h
+        exact Or.inr ⟨_, accRef_root hc hg⟩
+
+theorem dictAccs_mem {own : List (Name × Ref)} {dict : List (Name × EntryV)} {nr : Name × Ref}
+    (h : nr ∈ dictAccs own dict) : nr ∈ own := by
+  unfold dictAccs at h
+  obtain ⟨ke, _, hke⟩ := List.mem_filterMap.1 h
+  split at hke
+  · cases hg : aget? own ke.1 with
+    | none => simp [hg] at hke
+    | some r =>
+      simp only [hg, Option.map_some, Option.some.injEq] at hke
+      subst hke
+      exact aget?_mem hg
+  · simp at hke
+
+/-- a new class reaches only new objects and objects of existing classes -/
+theorem preserve_define (T : Tables) (w : World) (d : ClassDecl) (hadm : w.findClass d.name = none)
+    (hb : Bounded w) (hs : Separated w) :
+    Bounded (defineClass T w d) ∧ Separated (defineClass T w d) := by
+  have hname : (pureDefine T (chainOf w d) d).decl.name = d.name := by rw [pureDefine_decl]
+  unfold defineClass
+  generalize hcv : pureDefine T (chainOf w d) d = cv at hname
+  have hrec : ∀ o, o ≠ Owner.cls d.name → (layout w cv).roots o = w.roots o := by
+    intro o ho
+    have := (records_step T w (.define d) o ho).2
+    simpa only [step, defineClass, hcv] using this
+  apply preserve_of_fresh w (layout w cv) (.cls d.name) (extends_layout w cv) hrec hb hs
+  intro r hr
+  have hfind : (layout w cv).findClass d.name = some (layoutRec w cv) := by
+    have := findClass_layout_new w cv (by rw [hname]; exact hadm)
+    rwa [hname] at this
+  have s1inv : FreshOrInv w.heap.length (ClassReach w) (layoutDecl w cv) :=
+    freshOrInv_foldl _ _ _ (freshOrInv_allocDecl _ _ _) cv.dict (w.heap, []) ⟨Nat.le_refl _, by simp⟩
+  have hsd : ∀ nr ∈ (layoutDecl w cv).2, w.heap.length ≤ nr.2 ∧ nr.2 < (layoutDecl w cv).1.length :=
+    fun nr h => (s1inv.2 nr h).1
+  have s2inv : FreshOrInv w.heap.length (ClassReach w) (layoutAcc w cv (layoutDecl w cv)) :=
+    freshOrInv_layoutAcc w cv.decl.name _ _ _ hsd cv.dict ((layoutDecl w cv).1, [])
+      ⟨⟨s1inv.1, by simp⟩, Nat.le_refl _⟩
+  have he12 : Extends (layoutDecl w cv).1 (layoutAcc w cv (layoutDecl w cv)).1 :=
+    extends_foldl _ (extends_allocAcc _ _ _) cv.dict ((layoutDecl w cv).1, [])
+  have hheap : (layout w cv).heap = (layoutAcc w cv (layoutDecl w cv)).1 := rfl
+  -- objects of the new class: from pass 2
+  have own2 : ∀ nr ∈ (layoutAcc w cv (layoutDecl w cv)).2, ∀ x ∈ reachAcc (layout w cv).heap nr.2,
+      (w.heap.length ≤ x ∧ x < (layout w cv).heap.length) ∨ ClassReach w x := by
+    intro nr hnr x hx
+    rw [hheap] at hx ⊢
+    exact (s2inv.2 nr hnr).2 x hx
+  unfold reach at hr
+  simp only [World.roots, hfind] at hr
+  obtain ⟨root, hroot, hx⟩ := List.mem_flatMap.1 hr
+  have hgoal : (w.heap.length ≤ r ∧ r < (layout w cv).heap.length) ∨ ClassReach w r := by
+    simp only [List.mem_append, List.mem_map] at hroot
+    rcases hroot with (⟨nr, hnr, rfl⟩ | ⟨nr, hnr, rfl⟩) | ⟨nr, hnr, rfl⟩
+    · -- an accessible
+      have hcases : nr ∈ (layoutAcc w cv (layoutDecl w cv)).2 ∨ ∃ c, nr.2 ∈ w.roots (.cls c) := by
+        simp only [layoutRec, layoutAccessibles] at hnr
+        split at hnr
+        · obtain ⟨ns, _, hns⟩ := List.mem_filterMap.1 hnr
+          exact accessibleRef_ok hns
+        · exact Or.inl (dictAccs_mem hnr)
+      rcases hcases with h | ⟨c, hc⟩
+      · exact own2 nr h r hx
+      · right
+        rw [reachAcc_congr ((extends_layout w cv).get (root_lt hb hc))] at hx
+        exact ⟨c, root_reach hc hx⟩
+    · exact own2 nr hnr r hx
+    · -- a declared datatype object
+      have hlt := (s1inv.2 nr hnr).1.2
+      rw [hheap, reachAcc_congr (he12.get hlt)] at hx
+      rcases (s1inv.2 nr hnr).2 r hx with h | h
+      · left; rw [hheap]; exact ⟨h.1, Nat.lt_of_lt_of_le h.2 he12.len⟩
+      · exact Or.inr h
+  rcases hgoal with h | ⟨c, hc⟩
+  · exact Or.inl h
+  · exact Or.inr ⟨⟨d.name, rfl⟩, c, hc⟩
+
+
+/-! ### what a class is computed from: refinement to `pureOf` -/
+
+/-- every class of the world is what `pureOf` says, from some fuel on -/
+def PureInv (T : Tables) (env : Name → Option ClassDecl) (w : World) : Prop :=
+  ∀ n cr, w.findClass n = some cr → ∃ f, ∀ f', f ≤ f' → pureOf T env f' n = some cr.pure
+
+theorem pureOf_none (T : Tables) (env : Name → Option ClassDecl) (f : Nat) (n : Name) (h : env n = none) :
+    pureOf T env f n = none := by
+  cases f with
+  | zero => rfl
+  | succ f => simp [pureOf, h]
+
+theorem chain_agrees (T : Tables) (env : Name → Option ClassDecl) (w : World) (hinv : PureInv T env w)
+    (l : List Name) (hcons : ∀ m ∈ l, env m ≠ none → w.findClass m ≠ none) :
+    ∃ F, ∀ f', F ≤ f' → l.filterMap (pureOf T env f') = l.filterMap (fun n => (w.findClass n).map (·.pure)) := by
+  induction l with
+  | nil => exact ⟨0, fun _ _ => rfl⟩
+  | cons m l ih =>
+    obtain ⟨F, hF⟩ := ih (fun m' h => hcons m' (List.mem_cons_of_mem _ h))
+    cases hc : w.findClass m with
+    | none =>
+      have henv : env m = none := by
+        false_or_by_contra
+        rename_i hne
+        exact hcons m List.mem_cons_self hne hc
+      refine ⟨F, fun f' hf' => ?_⟩
+      simp only [List.filterMap_cons, pureOf_none T env f' m henv, hc, Option.map_none, hF f' hf']
+    | some cr =>
+      obtain ⟨f, hf⟩ := hinv m cr hc
+      refine ⟨max F f, fun f' hf' => ?_⟩
+      simp only [List.filterMap_cons, hf f' (Nat.le_trans (Nat.le_max_right _ _) hf'), hc, Option.map_some,
+        hF f' (Nat.le_trans (Nat.le_max_left _ _) hf')]
+
+theorem pureInv_define (T : Tables) (env : Name → Option ClassDecl) (w : World) (d : ClassDecl)
+    (hadm : w.findClass d.name = none) (hcons : Consistent env w (.define d)) (hinv : PureInv T env w) :
+    PureInv T env (defineClass T w d) := by
+  have hname : (pureDefine T (chainOf w d) d).decl.name = d.name := by rw [pureDefine_decl]
+  intro n cr hfind
+  by_cases hn : n = d.name
+  · subst hn
+    have hnew := findClass_layout_new w (pureDefine T (chainOf w d) d) (by rw [hname]; exact hadm)
+    rw [hname] at hnew
+    unfold defineClass at hfind
+    rw [hnew] at hfind
+    cases hfind
+    obtain ⟨F, hF⟩ := chain_agrees T env w hinv d.mro.tail hcons.2
+    refine ⟨F + 1, fun f' hf' => ?_⟩
+    obtain ⟨g, rfl⟩ : ∃ g, f' = g + 1 := ⟨f' - 1, by omega⟩
+    simp only [pureOf, hcons.1, Option.map_some, hF g (by omega)]
+    rfl
+  · unfold defineClass at hfind
+    rw [findClass_layout_ne w _ n (by rw [hname]; exact hn)] at hfind
+    exact hinv n cr hfind
+
+theorem pureInv_step (T : Tables) (env : Name → Option ClassDecl) (w : World) (op : Op)
+    (hadm : Admissible w op) (hcons : Consistent env w op) (hinv : PureInv T env w) : PureInv T env (step T w op) := by
+  cases op with
+  | define d => exact pureInv_define T env w d hadm hcons hinv
+  | inst n c cfg => exact fun m cr h => hinv m cr (by rwa [step, findClass_instantiate] at h)
+  | setprop i p k v =>
+    have := (records_mutation T w (.setprop i p k v) (Or.inl ⟨i, p, k, v, rfl⟩)).1
+    exact fun m cr h => hinv m cr (by simpa only [World.findClass, this] using h)
+  | addEnum i p m' =>
+    have := (records_mutation T w (.addEnum i p m') (Or.inr ⟨i, p, m', rfl⟩)).1
+    exact fun m cr h => hinv m cr (by simpa only [World.findClass, this] using h)
+
+theorem pureInv_run (T : Tables) (env : Name → Option ClassDecl) (ops : List Op) (w : World)
+    (hadm : AdmissibleRun T w ops) (hcons : ConsistentRun T env w ops) (hinv : PureInv T env w) :
+    PureInv T env (run T w ops) := by
+  induction ops generalizing w with
+  | nil => exact hinv
+  | cons op ops ih =>
+    simp only [run, List.foldl_cons]
+    exact ih _ hadm.2 hcons.2 (pureInv_step T env w op hadm.1 hcons.1 hinv)
 
 end Frappy.Klass
